@@ -242,6 +242,7 @@ class SideMonitor:
         self.honest_content = honest_content
         self.role = role           # 'download' | 'upload'
         self.path_states = []      # (t, old, new)
+        self.failed_without_reason = 0
         self.transfer = None
         self.min_size_seen = 0
         self.last_size = 0
@@ -261,6 +262,8 @@ class SideMonitor:
     async def on_transfer_state_changed(self, transfer, old, new):
         now = self.world.loop.time()
         self.path_states.append((now, old.name, new.name))
+        if new.name == 'FAILED' and old.name == 'DOWNLOADING' and not transfer.fail_reason:
+            self.failed_without_reason += 1
         self.world.trace('state', self.who, old.name, new.name)
         if self.role == 'download':
             self.check_prefix('notification:' + new.name)
@@ -472,8 +475,9 @@ def _run_pair(world: World, plan):
     for (t, old, new) in down.path_states:
         if old == 'DOWNLOADING' and new not in ('COMPLETE', 'INCOMPLETE', 'FAILED', 'ABORTED', 'PAUSED'):
             world.violate('C04.fault_state', frm=old, to=new)
-        if new == 'FAILED' and down.transfer is not None and not down.transfer.fail_reason and False:
-            world.violate('C04.fault_state', what='FAILED without a reason')
+    if down.failed_without_reason:
+        # "the download becomes INCOMPLETE (or FAILED with a reason)": judged at the notification
+        world.violate('C04.fault_state', what='DOWNLOADING -> FAILED without a reason')
     for rec in world.loop.exc_contexts:
         world.violate('C04.fault_state', what='loop exception handler', exc=rec.get('exc_type'), coro=rec.get('coro'))
         break
